@@ -102,7 +102,7 @@ def prune(dirpat, keep):
 def build_lib(flavor, tools=False):
     """Build libjwt.a (and optionally the tools) from REPO's working tree."""
     th = repo_tree_hash()
-    bdir = os.path.join(CACHE, "lib", f"{flavor}-{th}")
+    bdir = os.path.join(CACHE, "lib", f"{flavor}-{th}")   # (tree hash only: the flags are part of the flavor name)
     stamp = os.path.join(bdir, ".ok_tools" if tools else ".ok")
     with Lock(os.path.join(CACHE, "lock", f"lib-{flavor}-{th}")):
         if os.path.exists(stamp):
@@ -111,7 +111,7 @@ def build_lib(flavor, tools=False):
         t0 = time.time()
         os.makedirs(bdir, exist_ok=True)
         if not os.path.exists(os.path.join(bdir, "build.ninja")):
-            r = sh(["cmake", "-G", "Ninja", "-S", REPO, "-B", bdir, "-DCMAKE_C_COMPILER=clang",
+            r = sh(["cmake", "-G", "Ninja", "-S", REPO, "-B", bdir, "-DCMAKE_C_COMPILER=" + os.path.join(VERIF, "drv", "vcc"),
                     "-DCMAKE_BUILD_TYPE=None", f"-DCMAKE_C_FLAGS={FLAVORS[flavor]}",
                     "-DCMAKE_EXE_LINKER_FLAGS=" + HARNESS_SAN[flavor].replace("fuzzer,", ""),
                     "-DWITH_TESTS=OFF", "-DWITH_GNUTLS=ON"], stdout=subprocess.PIPE, stderr=subprocess.STDOUT, text=True)
@@ -318,6 +318,12 @@ def merge_stats(results):
 
 
 def write_evidence(pid, tier, seed, level, coverage, assumptions, wall, violations):
+    # runs against deliberately broken trees (drv/mut.sh, drv/seedtest.sh) must not overwrite the committed evidence
+    if os.environ.get("VERIF_EVIDENCE_DIR"):
+        d = os.environ["VERIF_EVIDENCE_DIR"]; os.makedirs(d, exist_ok=True)
+        json.dump({"property_id": pid, "tier": tier, "seed": seed, "level": level, "coverage": coverage, "wall_s": round(wall, 2), "violations": violations},
+                  open(os.path.join(d, f"{pid}.json"), "w"), indent=1, default=str)
+        return
     os.makedirs(os.path.join(VERIF, "evidence"), exist_ok=True)
     ev = {"property_id": pid, "tier": tier, "seed": seed, "level": level, "coverage": coverage,
           "assumptions": assumptions, "wall_s": round(wall, 2), "violations": violations}
